@@ -31,6 +31,13 @@ is any list of messages (`Op`), rejected messages leave the state unchanged.
   the code and is proved false on a witness: reverse paging through a source's payments drops
   the payment with the empty external id (`paysrc_reverse_paging_skips_empty_external_id`).
 
+Further property theorems live in sibling modules (same namespace): `PvProofs.C13Paged` (paged order
+listings end to end = `specOrders`, all three index lookups and GetAllOrders, key and offset mode,
+limit 0 included), `PvProofs.C13Pay` (payment prefix scans = `specPayments`, `getPayment_iff`,
+`getPaymentsForTargetAndSource_exact`), `PvProofs.C13Check` (`checkInv` sound / exact w.r.t. `IndexInv`
+on well-formed dumps), `PvProofs.C13Frames` (frames of cancel, settle, set-external-id, payment
+retarget / accept / reject).
+
 The only hypothesis carried by Part A is that fewer than 2^64 orders are created (the uint64
 counter does not wrap).
 -/
